@@ -38,7 +38,7 @@ struct RequirePathProcessor<'a, 'b, 'resources, PathLocatorImpl> {
     path_locator: &'b PathLocatorImpl,
     module_definitions: BuildModuleDefinitions,
     source: PathBuf,
-    module_cache: HashMap<PathBuf, Expression>,
+    module_cache: HashMap<PathBuf, String>,
     require_stack: Vec<PathBuf>,
     skip_module_paths: HashSet<PathBuf>,
     resources: &'resources Resources,
@@ -141,8 +141,11 @@ impl<'a, 'b, 'resources, PathLocatorImpl: PathLocator>
         require_path: &Path,
         call: &FunctionCall,
     ) -> DarkluaResult<Expression> {
-        if let Some(expression) = self.module_cache.get(require_path) {
-            Ok(expression.clone())
+        if let Some(module_name) = self.module_cache.get(require_path) {
+            // the module is already bundled: only this require site's call is rebuilt
+            Ok(self
+                .module_definitions
+                .build_require_call(module_name, call))
         } else {
             if let Some(i) = self
                 .require_stack
@@ -169,14 +172,16 @@ impl<'a, 'b, 'resources, PathLocatorImpl: PathLocator>
             let required_resource = self.require_resource(require_path);
             self.require_stack.pop();
 
-            let module_value = self.module_definitions.build_module_from_resource(
-                required_resource?,
-                require_path,
-                call,
-            )?;
+            let module_name = self
+                .module_definitions
+                .build_module_from_resource(required_resource?, require_path)?;
+
+            let module_value = self
+                .module_definitions
+                .build_require_call(&module_name, call);
 
             self.module_cache
-                .insert(require_path.to_path_buf(), module_value.clone());
+                .insert(require_path.to_path_buf(), module_name);
 
             Ok(module_value)
         }
